@@ -24,7 +24,7 @@ func sameStrings(a, b []string) bool {
 }
 
 func sameEntry(a, b database.Command) bool {
-	return a.Command == b.Command && a.Description == b.Description && sameStrings(a.Keywords, b.Keywords) && a.Niche == b.Niche && sameStrings(a.Platform, b.Platform) && a.Pipeline == b.Pipeline
+	return a.Command == b.Command && a.Description == b.Description && sameStrings(a.Keywords, b.Keywords) && a.Niche == b.Niche && sameStrings(a.Platform, b.Platform) && a.Pipeline == b.Pipeline && sameStrings(a.Tags, b.Tags)
 }
 
 func init() {
@@ -60,8 +60,8 @@ func init() {
 				os.WriteFile(nb, []byte(""), 0o644)
 			case 2:
 				os.MkdirAll(filepath.Dir(nb), 0o755)
-				os.WriteFile(nb, []byte("- command: old one\n  description: kept\n  keywords: [old]\n  pipeline: false\n- command: old two\n  description: also kept\n  pipeline: true\n"), 0o644)
-				model = []database.Command{{Command: "old one", Description: "kept", Keywords: []string{"old"}}, {Command: "old two", Description: "also kept", Pipeline: true}}
+				os.WriteFile(nb, []byte("- command: old one\n  description: kept\n  keywords: [old]\n  tags: [handwritten, oncall]\n  pipeline: false\n- command: old two\n  description: also kept\n  pipeline: true\n"), 0o644)
+				model = []database.Command{{Command: "old one", Description: "kept", Keywords: []string{"old"}, Tags: []string{"handwritten", "oncall"}}, {Command: "old two", Description: "also kept", Pipeline: true}}
 			}
 			steps := 1 + rng.Intn(8)
 			for s := 0; s < steps; s++ {
